@@ -5,157 +5,8 @@ From PegV Require Import Base.Tac Base.ListX Spec.Syntax Spec.Peg Proofs.PegRel 
 From PegV Require Model.Front.
 Local Open Scope Z_scope.
 
-(** * concrete syntax: every token carries the layout that follows it *)
-Inductive cx :=
-| XDot (s : list rune)                                        (* .      *)
-| XName (id s : list rune)                                    (* name   *)
-| XAct (a s : list rune)                                      (* { a }  *)
-| XLit (dbl : bool) (ks : list cchar) (s : list rune)         (* 'ks' "ks" *)
-| XClass (dbl neg : bool) (items : list citem) (s : list rune)
-| XGroup (s1 : list rune) (e : cx) (s2 : list rune)           (* ( e )  *)
-| XPush (s1 : list rune) (e : cx) (s2 : list rune)            (* < e >  *)
-| XSuf (op : rune) (e : cx) (s : list rune)                   (* e? e* e+ *)
-| XPre (op : rune) (s : list rune) (e : cx)                   (* &e !e  *)
-| XPredA (op : rune) (s1 a s2 : list rune)                    (* &{a} !{a} *)
-| XSeq (l : list cx)                                          (* e1 e2 ... *)
-| XAlt (e1 : cx) (l : list (list rune * cx)) (trail : option (list rune))   (* e1 / e2 ... with an optional trailing slash *)
-| XEmpty.                                                     (* nothing *)
-
-Fixpoint show (e : cx) : list rune :=
-  match e with
-  | XDot s => 46 :: s
-  | XName id s => id ++ s
-  | XAct a s => 123 :: a ++ 125 :: s
-  | XLit dbl ks s => quote_of dbl :: kshows ks ++ quote_of dbl :: s
-  | XClass dbl neg items s => copen dbl ++ (if neg then [94] else []) ++ ishows items ++ cclose dbl ++ s
-  | XGroup s1 e s2 => 40 :: s1 ++ show e ++ 41 :: s2
-  | XPush s1 e s2 => 60 :: s1 ++ show e ++ 62 :: s2
-  | XSuf op e s => show e ++ op :: s
-  | XPre op s e => op :: s ++ show e
-  | XPredA op s1 a s2 => op :: s1 ++ 123 :: a ++ 125 :: s2
-  | XSeq l => flat_map show l
-  | XAlt e1 l trail =>
-      show e1 ++ flat_map (fun sx : list rune * cx => 47 :: fst sx ++ show (snd sx)) l ++
-      match trail with Some s => 47 :: s | None => [] end
-  | XEmpty => []
-  end.
-
-(** precedence level: 0 primary, 1 suffix, 2 prefix, 3 sequence, 4 expression *)
-Definition lvl (e : cx) : nat :=
-  match e with
-  | XSuf _ _ _ => 1
-  | XPre _ _ _ | XPredA _ _ _ _ => 2
-  | XSeq _ => 3
-  | XAlt _ _ _ | XEmpty => 4
-  | _ => 0
-  end%nat.
-
-Definition suf_call (op : rune) : call :=
-  if op =? 63 then (CAddQuery, []) else if op =? 42 then (CAddStar, []) else (CAddPlus, []).
-Definition pre_call (op : rune) : call := if op =? 38 then (CAddPeekFor, []) else (CAddPeekNot, []).
-Definition pred_call (op : rune) (a : list rune) : call := if op =? 38 then (CAddPredicate, a) else (CAddStateChange, a).
-
-(** the builder calls, in order *)
-Fixpoint xcalls (e : cx) : list call :=
-  match e with
-  | XDot _ => [(CAddDot, [])]
-  | XName id _ => [(CAddName, id)]
-  | XAct a _ => [(CAddAction, a)]
-  | XLit dbl ks _ => lit_calls dbl ks
-  | XClass dbl neg items _ => class_calls dbl neg items
-  | XGroup _ e _ => xcalls e
-  | XPush _ e _ => xcalls e ++ [(CAddPush, [])]
-  | XSuf op e _ => xcalls e ++ [suf_call op]
-  | XPre op _ e => xcalls e ++ [pre_call op]
-  | XPredA op _ a _ => [pred_call op a]
-  | XSeq l =>
-      match l with
-      | [] => []
-      | x :: l' => xcalls x ++ flat_map (fun y => xcalls y ++ [(CAddSequence, [])]) l'
-      end
-  | XAlt e1 l trail =>
-      xcalls e1 ++ flat_map (fun sx : list rune * cx => xcalls (snd sx) ++ [(CAddAlternate, [])]) l ++
-      match trail with Some _ => [(CAddNil, []); (CAddAlternate, [])] | None => [] end
-  | XEmpty => [(CAddNil, [])]
-  end.
-
-Fixpoint size (e : cx) : nat :=
-  match e with
-  | XGroup _ e _ | XPush _ e _ | XSuf _ e _ | XPre _ _ e => S (size e)
-  | XSeq l => S (fold_right (fun x a => size x + a) 0 l)
-  | XAlt e1 l _ => S (size e1 + fold_right (fun sx a => size (snd sx) + a) 0 l)
-  | _ => 1
-  end%nat.
-
-(** the last token is an identifier with no layout behind it: what follows must not continue it *)
-Fixpoint glue (e : cx) : bool :=
-  match e with
-  | XName _ s => match s with [] => true | _ => false end
-  | XPre _ _ e => glue e
-  | XSeq l =>
-      (fix gl (l : list cx) : bool :=
-         match l with [] => false | x :: l' => match l' with [] => glue x | _ => gl l' end end) l
-  | XAlt e1 l trail =>
-      match trail with
-      | Some _ => false
-      | None =>
-          match l with
-          | [] => glue e1
-          | _ => (fix gl (l : list (list rune * cx)) : bool :=
-                    match l with [] => false | sx :: l' => match l' with [] => glue (snd sx) | _ => gl l' end end) l
-          end
-      end
-  | _ => false
-  end.
-
-Definition head_ne (c : rune) (s : list rune) : Prop := forall c' r, s = c' :: r -> c' <> c.
-Definition pstart (c : rune) : bool :=
-  (c =? 38) || (c =? 33) || (c =? 40) || (c =? 39) || (c =? 34) || (c =? 91) || (c =? 46) || (c =? 123) || (c =? 60) || is_istart c.
-
-(** neighbours in a sequence: an identifier with nothing behind it is not followed by a letter or digit *)
-Fixpoint adj (l : list cx) : Prop :=
-  match l with
-  | x :: ((y :: _) as l') => (glue x = true -> not_icont_head (show y)) /\ adj l'
-  | _ => True
-  end.
-
-(** the code point a spelling stands for (Model/Front.v's decoders) *)
-Definition kval (k : cchar) : Z :=
-  match k with
-  | KRaw c => c
-  | KEsc c => esc_val c
-  | KHex _ ds => Front.add_hexa (map hexval ds)
-  | KOct ds => Front.add_octal (map octval ds)
-  end.
 (** Model/Front.v folds case for ASCII letters only, the Go builder (strings.ToLower / ToUpper) for all of
     Unicode: the end points of a [[a-z]] range stay below 128, where the two agree *)
-Definition ranges_ascii (items : list citem) : bool :=
-  forallb (fun i => match i with IRange lo hi => (kval lo <? 128) && (kval hi <? 128) | IChar _ => true end) items.
-
-Definition is_sufop (op : rune) : Prop := op = 63 \/ op = 42 \/ op = 43.
-Definition is_preop (op : rune) : Prop := op = 38 \/ op = 33.
-
-(** well-formed: the precedence levels nest, layouts are layouts, and the spellings read back as written *)
-Inductive wf : cx -> Prop :=
-| wf_dot s : lay s -> wf (XDot s)
-| wf_name id s : ident_ok id = true -> lay s -> wf (XName id s)
-| wf_act a s : bal a -> lay s -> wf (XAct a s)
-| wf_lit dbl ks s : chars_ok (quote_of dbl) ks [quote_of dbl] = true -> lay s -> wf (XLit dbl ks s)
-| wf_class dbl neg items s : class_wf dbl neg items = true -> citems_ok items (cclose dbl) = true ->
-    (dbl = true -> ranges_ascii items = true) -> lay s ->
-    wf (XClass dbl neg items s)
-| wf_group s1 e s2 : lay s1 -> wf e -> lay s2 -> wf (XGroup s1 e s2)
-| wf_push s1 e s2 : lay s1 -> wf e -> lay s2 -> wf (XPush s1 e s2)
-| wf_suf op e s : is_sufop op -> lvl e = 0%nat -> wf e -> lay s -> wf (XSuf op e s)
-| wf_pre op s e : is_preop op -> lay s -> (lvl e <= 1)%nat -> wf e -> head_ne 123 (show e) -> wf (XPre op s e)
-| wf_pred op s1 a s2 : is_preop op -> lay s1 -> bal a -> lay s2 -> wf (XPredA op s1 a s2)
-| wf_seq l : (2 <= length l)%nat -> Forall (fun x => (lvl x <= 2)%nat /\ wf x) l -> adj l -> wf (XSeq l)
-| wf_alt e1 l trail : (lvl e1 <= 3)%nat -> wf e1 ->
-    Forall (fun sx : list rune * cx => lay (fst sx) /\ head_ne 47 (fst sx) /\ (lvl (snd sx) <= 3)%nat /\ wf (snd sx)) l ->
-    (forall s, trail = Some s -> lay s /\ head_ne 47 s) ->
-    (l <> [] \/ trail <> None) -> wf (XAlt e1 l trail)
-| wf_empty : wf XEmpty.
-
 Lemma lay_head s c r : lay s -> s = c :: r -> c = 32 \/ c = 9 \/ c = 10 \/ c = 13 \/ c = 35 \/ c = 47.
 Proof. intros H E. subst s. inv H; tauto. Qed.
 
@@ -278,12 +129,8 @@ Proof.
     rewrite !app_assoc, !app_comm_cons. apply kfollow_tail. tauto.
 Qed.
 
-Fixpoint glue_list (l : list cx) : bool :=
-  match l with [] => false | x :: l' => match l' with [] => glue x | _ => glue_list l' end end.
 Lemma glue_seq l : glue (XSeq l) = glue_list l.
 Proof. induction l as [|x l IH]; [reflexivity|]. cbn [glue glue_list] in *. destruct l; [reflexivity|exact IH]. Qed.
-Fixpoint glue_listp (l : list (list rune * cx)) : bool :=
-  match l with [] => false | sx :: l' => match l' with [] => glue (snd sx) | _ => glue_listp l' end end.
 Lemma glue_alt e1 l : glue (XAlt e1 l None) = match l with [] => glue e1 | _ => glue_listp l end.
 Proof.
   destruct l as [|sx l]; [reflexivity|]. revert sx. induction l as [|y l IH]; intros sx; [reflexivity|].
@@ -294,7 +141,6 @@ Proof. cbn [size]. induction l as [|x l IH]; intros H; [destruct H|]. cbn [fold_
 Lemma nic_app a b : a <> [] -> not_icont_head a -> not_icont_head (a ++ b).
 Proof. intros Hne H c r E. destruct a as [|c0 a']; [congruence|]. cbn [app] in E. inv E. eapply H. reflexivity. Qed.
 
-Definition showalt (sx : list rune * cx) : list rune := 47 :: fst sx ++ show (snd sx).
 Lemma size_in_alt e1 sx l trail : In sx l -> (size (snd sx) < size (XAlt e1 l trail))%nat.
 Proof. cbn [size]. induction l as [|y l IH]; intros H; [destruct H|]. cbn [fold_right]. destruct H as [->|H]; [lia|specialize (IH H); lia]. Qed.
 
